@@ -379,6 +379,10 @@ class TestGen:
             self.subs.insert(0, {"name": name, "writes": writes})
             sub_bufs.insert(0, self.lines)
         self.lines = main_lines
+        self.macro = None
+        if rng.random() < 0.7:
+            self.macro = "mm%d" % self.uid
+            self.lines.append((1, ".macro %s() { nop }" % self.macro))
         if rng.random() < 0.7:
             self.lines.append((1, ".const k = %d" % rng.randrange(0, 256)))
             self.consts.append(((), "k", int(self.lines[-1][1].split("=")[1])))
@@ -494,6 +498,23 @@ def test_path(t):
 
 
 # ----------------------------------------------------------------------------------------------- assertions
+def error_templates(rng, labels, macro):
+    """assertions whose evaluation raises an error (as opposed to yielding zero or no value): they cannot be evaluated,
+    so the test must fail there.  (kind, text)"""
+    l = rng.choice(labels)[0] if labels else "$20"
+    zp = "$%02x" % rng.randrange(ZP_LO, ZP_HI)
+    c = [("unknown_function", "ramm(%s) == ramm(%s)" % (zp, zp)), ("unknown_function", "ram8(%s) >= 0" % l),
+         ("unknown_function", "cpu.a == peek(%s)" % zp), ("unknown_function", "1 + nosuchfn(2)"),
+         ("wrong_arity", "ram(%s, 1) >= 0" % zp), ("wrong_arity", "ram16(%s, %s) >= 0" % (l, l)), ("wrong_arity", "ram() == 0"),
+         ("wrong_arity", "defined(cpu.a, cpu.x)"), ("wrong_arity", "ram(%s) == ram16()" % zp),
+         ("string_operator", "\"abc\" < \"abd\""), ("string_operator", "\"a\" - \"a\" == 0"), ("string_operator", "(\"x\" * \"y\") == 0"),
+         ("string_operator", "ram(\"abc\" >= \"abd\") >= 0")]
+    if macro:
+        c += [("interpolation", "\"{%s}\" == \"x\"" % macro), ("interpolation", "\"a{%s}\"" % macro),
+              ("interpolation", "\"v={%s}\" != \"\"" % macro)]
+    return c
+
+
 def templates(rng, st, consts_in_scope, labels, prev_text):
     """candidate assertion expressions for machine state st = (pc, a, x, y, sp, p): (text, python value or None).
     The language has two precedence levels only (* / % << >> ^ bind tighter than + - == != < > <= >= && ||, all left
@@ -633,6 +654,11 @@ def choose_inserts(rng, prj, t, sym, steps):
             want = rng.random()
             pool = [c for c in cands if (c[1] not in (0, None)) == (want < 0.72) or c[1] is None and rng.random() < 0.2]
             text, val = rng.choice(pool or cands)
+            if rng.random() < 0.10:
+                ekind, text = rng.choice(error_templates(rng, labels, getattr(g, "macro", None)))
+                val = 0
+                info.setdefault("error_kinds", {})
+                info["error_kinds"][ekind] = info["error_kinds"].get(ekind, 0) + (1 if visits else 0)
             msg = None
             if rng.random() < 0.4:
                 msg = rng.choice(["oh no", "value mismatch", "m%d" % rng.randrange(100), "x"])
@@ -807,6 +833,8 @@ def run(chk):
     n = 1500 if thorough else 150
     workdir = os.path.join(common.CACHE, "work")
     os.makedirs(workdir, exist_ok=True)
+    # ---- targeted: the exit status for a number of failures that is a multiple of 256 (started now, collected at the end)
+    many = start_many_failures(rng, mos, workdir)
     dist = {"projects": 0, "tests": 0, "passed": 0, "failed": 0, "instr_kinds": {}, "assert_true": 0, "assert_false": 0,
             "assert_unknown": 0, "assert_in_loop_or_sub": 0, "assert_at_revisited_pc": 0, "traces": 0, "steps_total": 0,
             "two_banks": 0, "max_steps": 0, "fail_on_later_visit": 0, "skipped": 0, "unreached_asserts": 0}
@@ -871,6 +899,9 @@ def run(chk):
             dist["traces"] += info["traces"]
             dist["unreached_asserts"] += info["unreached"]
             dist["assert_in_unrolled_loop"] = dist.get("assert_in_unrolled_loop", 0) + info.get("unrolled", 0)
+            for k2, v2 in info.get("error_kinds", {}).items():
+                dist.setdefault("assert_raising_error_on_executed_path", {})
+                dist["assert_raising_error_on_executed_path"][k2] = dist["assert_raising_error_on_executed_path"].get(k2, 0) + v2
             for k2, v2 in info.get("forms", {}).items():
                 dist.setdefault("assert_forms", {})
                 dist["assert_forms"][k2] = dist["assert_forms"].get(k2, 0) + v2
@@ -881,6 +912,7 @@ def run(chk):
             dist["two_banks"] += 1
         check_project(chk, rng, probe, model, hook, mos, workdir, src, (prj, placed), dist, "gen%d" % i)
 
+    finish_many_failures(chk, many, probe, model, dist)
     probe.stop()
     model.stop()
     hook.stop()
@@ -903,6 +935,85 @@ def run(chk):
         "hook H2 `mos verif-probe testrun` (mos/src/verif_c18.rs): reports the runner's elements, machine states and result",
         "extract/driver_c18.ml unrolls TestRunner::run over the extracted execute_instruction to log machine states",
         "the oracle's assertions come from the generator (marker-label pc via mosprobe, lexical scope, text, line/column)"])
+
+
+def start_many_failures(rng, mos, workdir):
+    """a project with exactly 256 failing tests (and 0-2 passing ones): a process exit status keeps 8 bits only"""
+    npass = rng.randrange(0, 3)
+    lines = []
+    pass_at = set(rng.sample(range(256 + npass), npass))
+    k = 0
+    for i in range(256 + npass):
+        if i in pass_at:
+            lines.append('.test "p%d" {.assert %d == %d}' % (i, i, i))
+        else:
+            lines.append('.test "f%d" {.assert %d == %d}' % (i, k, k + 1 + rng.randrange(3)))
+            k += 1
+    src = "\n".join(lines) + "\n"
+    d = tempfile.mkdtemp(prefix="c18_many_", dir=workdir)
+    with open(os.path.join(d, "main.asm"), "w") as f:
+        f.write(src)
+    with open(os.path.join(d, "mos.toml"), "w") as f:
+        f.write('[build]\nentry = "main.asm"\n')
+    p = subprocess.Popen([mos, "--no-color", "--error-style", "Short", "test"], cwd=d, stdout=subprocess.PIPE, stderr=subprocess.STDOUT, env=common.ENV)
+    return {"dir": d, "proc": p, "src": src, "npass": npass}
+
+
+def finish_many_failures(chk, many, probe, model, dist):
+    try:
+        try:
+            out, _ = many["proc"].communicate(timeout=1200)
+        except subprocess.TimeoutExpired:
+            many["proc"].kill()
+            chk.tie_break("many_failures", "`mos test` on 256 failing tests did not finish within 20 minutes", {"source": many["src"][:400]})
+            return
+        rc = many["proc"].returncode
+        out = common.clean(out.decode("utf-8", "replace"))
+        po = parse_output(out)
+        src = many["src"]
+        files = {"main.asm": src}
+        # the spec verdict of a few of the tests (each is a single assertion at the BRK that ends the empty body)
+        names = [t[0] for t in po["tests"]]
+        want_names = [l.split('"')[1] for l in src.splitlines()]
+        spec_failed = 0
+        for name in [n for n in want_names if n.startswith("f")][:3] + [n for n in want_names if n.startswith("p")][:1]:
+            a = probe.call({"cmd": "asm", "files": files, "active_test": name, "constants": {"TEST": 1}}, timeout=60)
+            bf = bank_for(a, name) if a.get("ok") else None
+            if bf is None:
+                chk.tie_break("many_failures", "test %s does not assemble" % name, {"source": src[:400]})
+                return
+            banks, segs, pc = bf
+            line = [i for i, l in enumerate(src.splitlines()) if '"%s"' % name in l][0]
+            text = src.splitlines()[line]
+            expr = text[text.index(".assert ") + 8:-1]
+            el = {"kind": "assert", "exprs": [expr], "message": None, "line": line + 1, "column": text.index(".assert ") + 9,
+                  "snapshot": {"pc": pc, "scope": [], "symbols": []}}
+            s = model.call({"cmd": "run", "fuel": 10, "banks": banks, "steps": False,
+                            "test": {"name": name, "bank": banks[0]["name"], "pc": pc, "elements": [el]}})
+            v = s.get("spec", {}).get("verdict")
+            if v == "failed":
+                spec_failed += 1
+            printed = dict(po["tests"]).get(name)
+            if printed != {"passed": "ok", "failed": "failed"}.get(v):
+                chk.oracle_failure(None, "test %s of the 256-failures project: `mos test` printed %r, the spec says %s" % (name, printed, v),
+                                   {"source": src, "stdout": out[-800:], "test": name})
+        dist["many_failures_project"] = {"tests": len(want_names), "failing": 256, "exit": rc, "summary": po["summary"]}
+        chk.count(1, 1)
+        if spec_failed and rc == 0:
+            chk.oracle_failure(None, "exit status 0 although a test failed (a project with 256 failing tests: the spec fails test f.. at its "
+                               "assertion, `mos test` prints `%s`)" % (po["summary"],),
+                               {"source": src, "stdout": out[-800:], "exit": rc, "failing_tests": 256, "passing_tests": many["npass"]})
+        if po["summary"] != ("FAILED", many["npass"], 256):
+            chk.oracle_failure(None, "256-failures project: summary line %r, expected %d passed / 256 failed" % (po["summary"], many["npass"]),
+                               {"source": src, "stdout": out[-800:]})
+        rp = model.call({"cmd": "report", "results": [{"name": n, "failed": n.startswith("f")} for n in want_names]})
+        if rp.get("process_exit") != rc:
+            chk.tie_break("correspondence:exit_status", "256 failing tests: model exit status %s, `mos test` exited with %s" % (rp.get("process_exit"), rc),
+                          {"source": src, "stdout": out[-800:]})
+        if names != want_names:
+            chk.tie_break("correspondence:report", "256-failures project: order of tests differs", {"source": src[:400], "printed": names[:10]})
+    finally:
+        shutil.rmtree(many["dir"], ignore_errors=True)
 
 
 def check_project(chk, rng, probe, model, hook, mos, workdir, src, gen, dist, label):
@@ -989,6 +1100,35 @@ def check_project(chk, rng, probe, model, hook, mos, workdir, src, gen, dist, la
         if mm["verdict"] == "failed" and mm.get("steps"):
             if any(st[0] == mm["steps"][-1][0] for st in mm["steps"][:-1]):
                 dist["fail_on_later_visit"] += 1
+
+        # -------- correspondence: step_over / step_out / execute_instruction driven like the debug adapter drives them
+        for _ in range(3 if gen is None else 1):
+            nops = rng.randrange(3, 40)
+            wts = rng.choice([("in", "over", "out"), ("in", "in", "in", "over", "out"), ("over", "over", "out"), ("in", "in", "out")])
+            ops = [rng.choice(wts) for _ in range(nops)]
+            hs = hook.call({"cmd": "testrun", "files": files, "test": name, "ops": ops})
+            ms = model.call({"cmd": "stepping", "fuel": FUEL, "banks": banks, "ops": ops,
+                             "test": {"name": name, "bank": bname, "pc": pc, "elements": els_hook}})
+            dist["stepping_sequences"] = dist.get("stepping_sequences", 0) + 1
+            if "states" not in hs or "states" not in ms:
+                chk.tie_break("correspondence:stepping", "stepping failed: hook %s model %s" % (str(hs)[:200], str(ms)[:200]), dict(replay, ops=ops))
+                continue
+            for o in ops[:len(hs["states"])]:
+                dist.setdefault("stepping_ops", {})
+                dist["stepping_ops"][o] = dist["stepping_ops"].get(o, 0) + 1
+            if any(x.get("call_depth", 0) > 0 for x in hs["states"]):
+                dist["stepping_inside_calls"] = dist.get("stepping_inside_calls", 0) + 1
+            # after a failure the session ends: the open-call count of the dead runner is not observable (and the model's
+            # TestFailed does not carry a runner), so it is not compared there
+            for lst in (hs["states"], ms["states"]):
+                for x in lst:
+                    if x.get("state") == "failed":
+                        x.pop("call_depth", None)
+            if hs["states"] != ms["states"]:
+                k = next((i for i, (x, y) in enumerate(zip(ms["states"], hs["states"])) if x != y), min(len(ms["states"]), len(hs["states"])))
+                chk.tie_break("correspondence:stepping", "after operation %d (%s) the runner is at %s, the model at %s" % (
+                    k, ops[k] if k < len(ops) else "-", hs["states"][k:k + 1], ms["states"][k:k + 1]),
+                    dict(replay, ops=ops, index=k, impl=hs["states"][max(0, k - 2):k + 1], model=ms["states"][max(0, k - 2):k + 1]))
 
         # -------- oracle: spec verdict from the assembled image and the assertions as placed by the generator
         if gen is not None:
